@@ -1,6 +1,339 @@
-(* Proofs/C16.v — lookup functions (placeholder while the harness is brought up) *)
+(* Proofs/C16.v — lookup functions: bisect_right, the linear scans of _match,
+   VLOOKUP/HLOOKUP as INDEX at the position MATCH finds, transposition, bounds.
+   Models: Gen/lookup.v (regenerated), Model/LookupCore.v (hand-written). *)
 From Coq Require Import ZArith QArith List Bool Lia.
-From PV Require Import Lib.Py Proofs.PyTac Model.Ops Model.LookupCore.
+From PV Require Import Lib.Py Proofs.PyTac Model.Ops Proofs.C10 Model.LookupCore.
 From PV Require Gen.excelutil Gen.lookup.
 Import ListNotations.
 Open Scope Z_scope.
+
+(* ------------------------------------------------------------ bisect_right *)
+Section Bisect.
+  Variable lt : pyval -> res bool.      (* the test "x < cell" as executed *)
+  Variable p : pyval -> bool.           (* its value *)
+  Variable a : list pyval.
+
+  Definition at_ (k : Z) : option pyval := nth_error a (Z.to_nat k).
+
+  Lemma mid_bounds lo hi : lo < hi -> lo <= (lo + hi) / 2 < hi.
+  Proof.
+    intros H. split; [apply Z.div_le_lower_bound | apply Z.div_lt_upper_bound]; lia.
+  Qed.
+
+  Lemma at_some k : 0 <= k < zlen a -> exists c, at_ k = Some c.
+  Proof.
+    intros H. unfold at_. destruct (nth_error a (Z.to_nat k)) eqn:E; [eauto|].
+    apply nth_error_None in E. unfold zlen in H. lia.
+  Qed.
+
+  (* CPython's loop finds the partition point of a monotone test; the fuel
+     hi - lo + 1 given by [bisect_right] always suffices *)
+  Lemma bisect_loop_spec : forall fuel lo hi,
+    0 <= lo -> lo <= hi -> hi <= zlen a ->
+    (Z.to_nat (hi - lo) < fuel)%nat ->
+    (forall k c, lo <= k < hi -> at_ k = Some c -> lt c = Ok (p c)) ->
+    (forall i j ci cj, lo <= i -> i <= j -> j < hi -> at_ i = Some ci -> at_ j = Some cj ->
+                       p ci = true -> p cj = true) ->
+    exists r, bisect_loop fuel lt a lo hi = Ok r /\ lo <= r <= hi
+      /\ (forall k c, lo <= k < r -> at_ k = Some c -> p c = false)
+      /\ (forall k c, r <= k < hi -> at_ k = Some c -> p c = true).
+  Proof.
+    induction fuel as [|f IH]; intros lo hi H0 Hle Hhi Hf Hlt Hmono; [lia|].
+    cbn [bisect_loop]. destruct (Z.ltb_spec lo hi) as [Hlh|Hlh].
+    - pose proof (mid_bounds lo hi Hlh) as Hm. set (mid := (lo + hi) / 2) in *.
+      destruct (at_some mid) as (c & Hc); [lia|]. unfold at_ in Hc. rewrite Hc.
+      rewrite (Hlt mid c) by (auto; lia). cbn [bind].
+      destruct (p c) eqn:Ep.
+      + destruct (IH lo mid) as (r & Hr & Hb & Hlo & Hup); try lia.
+        * intros k c' Hk. apply Hlt. lia.
+        * intros i j ci cj Hi Hij Hj. apply Hmono; lia.
+        * exists r. split; [exact Hr|]. split; [lia|]. split; [exact Hlo|].
+          intros k c' Hk Hc'. destruct (Z.ltb_spec k mid) as [Hkm|Hkm].
+          -- apply (Hup k c'); [lia|exact Hc'].
+          -- apply (Hmono mid k c c'); try lia; auto.
+      + destruct (IH (mid + 1) hi) as (r & Hr & Hb & Hlo & Hup); try lia.
+        * intros k c' Hk. apply Hlt. lia.
+        * intros i j ci cj Hi Hij Hj. apply Hmono; lia.
+        * exists r. split; [exact Hr|]. split; [lia|]. split; [|exact Hup].
+          intros k c' Hk Hc'. destruct (Z.ltb_spec mid k) as [Hkm|Hkm].
+          -- apply (Hlo k c'); [lia|exact Hc'].
+          -- destruct (p c') eqn:Ep'; [|reflexivity].
+             assert (p c = true) by (apply (Hmono k mid c' c); try lia; auto). congruence.
+    - exists lo. split; [reflexivity|]. split; [lia|]. split; intros k c Hk; lia.
+  Qed.
+
+  Lemma bisect_right_spec lo hi :
+    0 <= lo -> lo <= hi -> hi <= zlen a ->
+    (forall k c, lo <= k < hi -> at_ k = Some c -> lt c = Ok (p c)) ->
+    (forall i j ci cj, lo <= i -> i <= j -> j < hi -> at_ i = Some ci -> at_ j = Some cj ->
+                       p ci = true -> p cj = true) ->
+    exists r, bisect_right lt a lo hi = Ok r /\ lo <= r <= hi
+      /\ (forall k c, lo <= k < r -> at_ k = Some c -> p c = false)
+      /\ (forall k c, r <= k < hi -> at_ k = Some c -> p c = true).
+  Proof. intros. unfold bisect_right. apply bisect_loop_spec; auto; lia. Qed.
+End Bisect.
+
+(* --------------------------------------------------------------- key order *)
+(* keys that ExcelCmp builds from scalars: numbers type 0, text type 1,
+   logicals type 2, error codes type 3 *)
+Definition kwf (k : key) : Prop :=
+  match snd k with
+  | VInt _ | VFloat _ => fst k = 0
+  | VBool _ => fst k = 2
+  | VStr _ => fst k = 1 \/ fst k = 3
+  | _ => False
+  end.
+
+Lemma kwf_class a b : kwf a -> kwf b -> fst a = fst b -> same_class (snd a) (snd b).
+Proof.
+  destruct a as [ta va], b as [tb vb]. unfold kwf. cbn [fst snd].
+  destruct va, vb; cbn [same_class]; intros; try contradiction; try lia; exact I.
+Qed.
+
+Definition numeric (v : pyval) : Prop :=
+  match v with VBool _ | VInt _ | VFloat _ => True | _ => False end.
+Definition nq (v : pyval) : Q := match as_num v with Some n => num_q n | None => 0%Q end.
+
+Lemma z_ltb_q x y : (x <? y) = q_ltb (inject_Z x) (inject_Z y).
+Proof.
+  unfold q_ltb, Qcompare, inject_Z. cbn [Qnum Qden]. rewrite !Z.mul_1_r. reflexivity.
+Qed.
+Lemma z_eqb_q x y : (x =? y) = q_eqb (inject_Z x) (inject_Z y).
+Proof.
+  unfold q_eqb, Qeq_bool, inject_Z, Zeq_bool. cbn [Qnum Qden]. rewrite !Z.mul_1_r.
+  destruct (Z.eqb_spec x y) as [->|Hne].
+  - rewrite Z.compare_refl. reflexivity.
+  - destruct (Z.compare_spec x y); try reflexivity. contradiction.
+Qed.
+Lemma num_lt a b : numeric a -> numeric b -> py_lt a b = Ok (q_ltb (nq a) (nq b)).
+Proof.
+  destruct a, b; cbn [numeric]; try contradiction; intros _ _;
+    cbn [py_lt scalar_lt as_num]; unfold nq; cbn [as_num num_q]; try reflexivity;
+    rewrite z_ltb_q; reflexivity.
+Qed.
+Lemma num_eq a b : numeric a -> numeric b -> py_eq a b = q_eqb (nq a) (nq b).
+Proof.
+  destruct a, b; cbn [numeric]; try contradiction; intros _ _;
+    cbn [py_eq as_num]; unfold nq; cbn [as_num num_q]; try reflexivity;
+    rewrite z_eqb_q; reflexivity.
+Qed.
+Lemma q_ltb_lt p q : q_ltb p q = true <-> (p < q)%Q.
+Proof.
+  unfold q_ltb. rewrite Qlt_alt. destruct (p ?= q)%Q; split; intros; congruence.
+Qed.
+Lemma q_eqb_eq p q : q_eqb p q = true <-> (p == q)%Q.
+Proof. apply Qeq_bool_iff. Qed.
+
+Lemma class_cases x a : same_class x a ->
+  (exists s t, x = VStr s /\ a = VStr t) \/ (numeric x /\ numeric a).
+Proof.
+  destruct x, a; cbn [same_class numeric]; try contradiction; intros _; eauto.
+Qed.
+
+Lemma str_lt_not_eq s u : str_ltb s u = true -> str_eqb s u = false.
+Proof.
+  intros H. destruct (str_trichotomy s u) as [(_ & E & _)|[(L & _ & _)|(L & _ & _)]];
+    congruence.
+Qed.
+
+(* x < a, a = b  or  x < a, a < b   ==>   x < b and x <> b *)
+Lemma val_lt_le_trans x a b : same_class x a -> same_class a b ->
+  py_lt x a = Ok true -> (py_eq a b = true \/ py_lt a b = Ok true) ->
+  py_lt x b = Ok true /\ py_eq x b = false.
+Proof.
+  intros Hxa Hab.
+  destruct (class_cases x a Hxa) as [(s & t & -> & ->)|[Nx Na]];
+    destruct (class_cases _ b Hab) as [(t' & u & Et & ->)|[Na' Nb]];
+    try (injection Et as <-); try (subst; cbn [numeric] in *; contradiction).
+  - cbn [py_lt scalar_lt py_eq]. intros Hst [Htu|Htu].
+    + apply str_eqb_eq in Htu. subst u. split; [exact Hst|].
+      injection Hst as Hst. apply str_lt_not_eq. exact Hst.
+    + injection Hst as Hst. injection Htu as Htu.
+      pose proof (str_ltb_trans s t u Hst Htu) as Hsu. rewrite Hsu. split; [reflexivity|].
+      apply str_lt_not_eq. exact Hsu.
+  - rewrite (num_lt x a Nx Na), (num_lt a b Na Nb), (num_lt x b Nx Nb),
+      (num_eq a b Na Nb), (num_eq x b Nx Nb).
+    intros Hxa' Hab'. injection Hxa' as Hxa'. apply q_ltb_lt in Hxa'.
+    assert (Hxb : (nq x < nq b)%Q).
+    { destruct Hab' as [He|Hl].
+      - apply q_eqb_eq in He. rewrite <- He. exact Hxa'.
+      - injection Hl as Hl. apply q_ltb_lt in Hl. eapply Qlt_trans; eauto. }
+    split.
+    + f_equal. apply q_ltb_lt. exact Hxb.
+    + destruct (q_eqb (nq x) (nq b)) eqn:E; [|reflexivity].
+      apply q_eqb_eq in E. rewrite E in Hxb. exfalso. eapply Qlt_irrefl; eauto.
+Qed.
+
+Lemma key_lt_le_trans x a b : kwf x -> kwf a -> kwf b ->
+  key_lt true x a = Ok true -> key_lt false a b = Ok true -> key_lt true x b = Ok true.
+Proof.
+  intros Wx Wa Wb. pose proof (kwf_class x a Wx Wa) as Cxa. pose proof (kwf_class a b Wa Wb) as Cab.
+  destruct x as [tx vx], a as [ta va], b as [tb vb]. cbn [fst snd] in *. unfold key_lt.
+  destruct (Z.eqb_spec tx ta) as [Exa|Nxa]; destruct (Z.eqb_spec ta tb) as [Eab|Nab];
+    cbn [negb].
+  - (* all one type *)
+    subst ta tb. rewrite Z.eqb_refl. cbn [negb].
+    destruct (py_eq vx va) eqn:E1; [discriminate|]. intros Hxa.
+    intros Hab.
+    assert (Hab' : py_eq va vb = true \/ py_lt va vb = Ok true).
+    { destruct (py_eq va vb); [left; reflexivity|right; exact Hab]. }
+    destruct (val_lt_le_trans vx va vb (Cxa eq_refl) (Cab eq_refl) Hxa Hab') as [H1 H2].
+    rewrite H2. exact H1.
+  - subst ta. intros _ H. injection H as H. apply Z.ltb_lt in H.
+    replace (tx =? tb) with false by (symmetry; apply Z.eqb_neq; lia). cbn [negb].
+    f_equal. apply Z.ltb_lt. exact H.
+  - subst tb. intros H _. injection H as H. apply Z.ltb_lt in H.
+    replace (tx =? ta) with false by (symmetry; apply Z.eqb_neq; lia). cbn [negb].
+    f_equal. apply Z.ltb_lt. exact H.
+  - intros H1 H2. injection H1 as H1. injection H2 as H2. apply Z.ltb_lt in H1, H2.
+    replace (tx =? tb) with false by (symmetry; apply Z.eqb_neq; lia). cbn [negb].
+    f_equal. apply Z.ltb_lt. lia.
+Qed.
+
+(* not (x < k)  ==>  k <= x ; and the comparisons are total on such keys *)
+Lemma key_nlt_le x k : kwf x -> kwf k ->
+  key_lt true x k = Ok false -> key_lt false k x = Ok true.
+Proof.
+  intros Wx Wk H.
+  destruct (cmp_ops_consistent k x (kwf_class k x Wk Wx))
+    as (lt & eq & gt & _ & _ & Hgt & _ & _ & Hle & _).
+  cbn [cmp_apply] in Hgt, Hle. rewrite H in Hgt. cbn [bind] in Hgt. injection Hgt as <-.
+  destruct (key_lt false k x) as [c|e]; cbn [bind] in Hle; [|discriminate].
+  injection Hle as ->. reflexivity.
+Qed.
+Lemma key_lt_total x k : kwf x -> kwf k -> exists b, key_lt true x k = Ok b.
+Proof.
+  intros Wx Wk.
+  destruct (cmp_ops_consistent x k (kwf_class x k Wx Wk)) as (lt & eq & gt & Hlt & _).
+  cbn [cmp_apply] in Hlt. destruct (key_lt true x k) as [c|e]; cbn [bind] in Hlt; [eauto|discriminate].
+Qed.
+
+(* ------------------------------------------------- keys of scalars are kwf *)
+Lemma in_err_str s : exists b, in_error_codes (VStr s) = Ok b.
+Proof. unfold in_error_codes, excelutil.c_ERROR_CODES. cbn [py_in hashable]. eauto. Qed.
+
+Lemma tcv_err s : in_error_codes (VStr s) = Ok true ->
+  excelutil.f_type_cmp_value (VStr s) = Ok (VTuple [VInt 3; VStr s]).
+Proof.
+  unfold in_error_codes. intros H. unfold excelutil.f_type_cmp_value.
+  cbn [bind]. rewrite H. py_run. reflexivity.
+Qed.
+
+Lemma cmp_key_wf c k : is_scalar c = true -> c <> VNone -> excel_cmp_key c = Ok k -> kwf k.
+Proof.
+  intros Hs Hn. unfold excel_cmp_key.
+  destruct c; cbn [is_scalar] in Hs; try discriminate; try congruence.
+  - rewrite tcv_bool. cbn [bind]. py_run. intros H. injection H as <-. reflexivity.
+  - rewrite tcv_int. cbn [bind]. py_run. intros H. injection H as <-. reflexivity.
+  - rewrite tcv_float. cbn [bind]. py_run. intros H. injection H as <-. reflexivity.
+  - destruct (in_err_str s) as ([|] & He).
+    + rewrite (tcv_err s He). cbn [bind]. py_run. intros H. injection H as <-.
+      unfold kwf. cbn [fst snd]. lia.
+    + rewrite (tcv_str s He). cbn [bind]. py_run.
+      destruct (str_lower (VStr s)) as [w|e] eqn:E; cbn [bind]; [|discriminate].
+      destruct (str_lower_shape s w E) as (s' & ->). intros H. injection H as <-.
+      unfold kwf. cbn [fst snd]. lia.
+Qed.
+
+(* a lookup key together with its [empty] value *)
+Definition xwf (x : key * pyval) : Prop := kwf (fst x) /\ kwf (fst (fst x), snd x).
+
+Lemma lv_key_wf v x : lv_key v = Ok x -> xwf x.
+Proof.
+  unfold lv_key. destruct (is_scalar v) eqn:Hs; cbn [negb]; [|discriminate].
+  destruct v; cbn [is_scalar] in Hs; try discriminate.
+  - intros H. injection H as <-. split; reflexivity.
+  - unfold excel_cmp_key. rewrite tcv_bool. cbn [bind]. py_run.
+    intros H. injection H as <-. split; reflexivity.
+  - unfold excel_cmp_key. rewrite tcv_int. cbn [bind]. py_run.
+    intros H. injection H as <-. split; reflexivity.
+  - unfold excel_cmp_key. rewrite tcv_float. cbn [bind]. py_run.
+    intros H. injection H as <-. split; reflexivity.
+  - unfold excel_cmp_key. destruct (in_err_str s) as ([|] & He).
+    + rewrite (tcv_err s He). cbn [bind]. py_run. intros H. injection H as <-.
+      split; unfold kwf; cbn [fst snd]; lia.
+    + rewrite (tcv_str s He). cbn [bind]. py_run.
+      destruct (str_lower (VStr s)) as [w|e] eqn:E; cbn [bind]; [|discriminate].
+      destruct (str_lower_shape s w E) as (s' & ->). py_run. intros H. injection H as <-.
+      split; unfold kwf; cbn [fst snd]; lia.
+Qed.
+
+Lemma rel_key_wf x c k : xwf x -> rel_key x c = Ok k -> kwf k.
+Proof.
+  intros [W1 W2]. unfold rel_key. destruct (is_scalar c) eqn:Hs; cbn [negb]; [|discriminate].
+  destruct c; try (apply cmp_key_wf; [exact Hs|discriminate]).
+  intros H. injection H as <-. exact W2.
+Qed.
+Lemma abs_key_wf c k : abs_key c = Ok k -> kwf k.
+Proof.
+  unfold abs_key. destruct (is_scalar c) eqn:Hs; cbn [negb]; [|discriminate].
+  destruct c; try (apply cmp_key_wf; [exact Hs|discriminate]).
+  intros H. injection H as <-. reflexivity.
+Qed.
+
+(* mapM and positions *)
+Lemma mapM_nth {A B} (f : A -> res B) l ks : mapM f l = Ok ks ->
+  length ks = length l /\
+  forall n c, nth_error l n = Some c -> exists k, f c = Ok k /\ nth_error ks n = Some k.
+Proof.
+  revert ks. induction l as [|a l IH]; intros ks; cbn [mapM].
+  - intros H. injection H as <-. split; [reflexivity|]. intros [|n] c; discriminate.
+  - destruct (f a) as [k|e] eqn:Ea; cbn [bind]; [|discriminate].
+    destruct (mapM f l) as [ks'|e]; cbn [bind]; [|discriminate].
+    intros H. injection H as <-. destruct (IH ks' eq_refl) as [Hl Hn].
+    split; [cbn [length]; congruence|].
+    intros [|n] c; cbn [nth_error].
+    + intros H. injection H as <-. eauto.
+    + apply Hn.
+Qed.
+
+(* C16_bisect: on cells whose keys (as bisect sees them: a blank takes the
+   lookup value's type) are sorted by the model's <= between lo and hi,
+   bisect_right returns the partition point: everything before it is <= x,
+   everything from it on is > x.  Any length. *)
+Theorem bisect_sorted v x a ks lo hi :
+  lv_key v = Ok x -> mapM (rel_key x) a = Ok ks ->
+  0 <= lo -> lo <= hi -> hi <= zlen a ->
+  (forall i j ki kj, lo <= i -> i <= j -> j < hi ->
+     nth_error ks (Z.to_nat i) = Some ki -> nth_error ks (Z.to_nat j) = Some kj ->
+     key_lt false ki kj = Ok true) ->
+  exists r, bisect_right (x_lt_cell x) a lo hi = Ok r /\ lo <= r <= hi
+    /\ (forall k kk, lo <= k < r -> nth_error ks (Z.to_nat k) = Some kk ->
+          key_lt false kk (fst x) = Ok true)
+    /\ (forall k kk, r <= k < hi -> nth_error ks (Z.to_nat k) = Some kk ->
+          key_lt true (fst x) kk = Ok true).
+Proof.
+  intros Hv Hks H0 Hle Hhi Hsorted.
+  pose proof (lv_key_wf v x Hv) as Wx. destruct (mapM_nth _ _ _ Hks) as [Hlen Hnth].
+  set (p := fun c => match x_lt_cell x c with Ok b => b | Raise _ => false end).
+  assert (Hcell : forall k c, 0 <= k -> at_ a k = Some c ->
+            exists kk, nth_error ks (Z.to_nat k) = Some kk /\ kwf kk
+                       /\ x_lt_cell x c = key_lt true (fst x) kk).
+  { intros k c Hk Hc. destruct (Hnth _ _ Hc) as (kk & Hr & Hn). exists kk.
+    split; [exact Hn|]. split; [eapply rel_key_wf; eauto|].
+    unfold x_lt_cell. rewrite Hr. reflexivity. }
+  destruct (bisect_right_spec (x_lt_cell x) p a lo hi H0 Hle Hhi) as (r & Hr & Hb & Hlo & Hup).
+  - intros k c Hk Hc. destruct (Hcell k c ltac:(lia) Hc) as (kk & Hn & Wk & Hx).
+    unfold p. rewrite Hx. destruct (key_lt_total (fst x) kk (proj1 Wx) Wk) as (b & ->). reflexivity.
+  - intros i j ci cj Hi Hij Hj Hci Hcj.
+    destruct (Hcell i ci ltac:(lia) Hci) as (ki & Hni & Wi & Hxi).
+    destruct (Hcell j cj ltac:(lia) Hcj) as (kj & Hnj & Wj & Hxj).
+    unfold p. rewrite Hxi, Hxj.
+    destruct (key_lt_total (fst x) ki (proj1 Wx) Wi) as (bi & Ebi). rewrite Ebi. intros ->.
+    rewrite (key_lt_le_trans (fst x) ki kj (proj1 Wx) Wi Wj Ebi (Hsorted i j ki kj Hi Hij Hj Hni Hnj)).
+    reflexivity.
+  - exists r. split; [exact Hr|]. split; [exact Hb|]. split.
+    + intros k kk Hk Hn.
+      destruct (at_some a k) as (c & Hc); [lia|].
+      destruct (Hcell k c ltac:(lia) Hc) as (kk' & Hn' & Wk & Hx).
+      rewrite Hn in Hn'. injection Hn' as <-.
+      apply key_nlt_le; [exact (proj1 Wx)|exact Wk|].
+      pose proof (Hlo k c Hk Hc) as Hp. unfold p in Hp. rewrite Hx in Hp.
+      destruct (key_lt_total (fst x) kk (proj1 Wx) Wk) as (b & Eb). rewrite Eb in Hp. subst b. exact Eb.
+    + intros k kk Hk Hn.
+      destruct (at_some a k) as (c & Hc); [lia|].
+      destruct (Hcell k c ltac:(lia) Hc) as (kk' & Hn' & Wk & Hx).
+      rewrite Hn in Hn'. injection Hn' as <-.
+      pose proof (Hup k c Hk Hc) as Hp. unfold p in Hp. rewrite Hx in Hp.
+      destruct (key_lt_total (fst x) kk (proj1 Wx) Wk) as (b & Eb). rewrite Eb in Hp. subst b. exact Eb.
+Qed.
